@@ -15,7 +15,6 @@
 //! A history is self-contained: its first event fixes `(capacity, rate)`.
 
 use mcx::explore::{self, Bounds, Result_, StepOut, System};
-use mcx::panics::Caught;
 use mcx::report::{Ctx, Violation, Violations};
 use radicle::crypto::test::signer::MockSigner;
 use radicle::node::{HostName, NodeId};
@@ -24,6 +23,7 @@ use serde::{Deserialize, Serialize};
 use serde_json::{json, Value};
 use std::collections::BTreeMap;
 use std::net::{IpAddr, Ipv4Addr};
+use std::sync::OnceLock;
 
 /// Clock at the start of every timeline (far enough from zero for eight backward steps).
 const T0_MS: i64 = 1_000_000;
@@ -45,9 +45,11 @@ fn non_routable(h: u8) -> bool {
     h == 1 || h == 2
 }
 
-fn key(seed: u8) -> NodeId {
+/// Fixed node ids (derived once: key derivation is far more expensive than a limiter step).
+fn key(which: usize) -> NodeId {
     use radicle::crypto::Signer as _;
-    *MockSigner::from_seed([seed; 32]).public_key()
+    static KEYS: OnceLock<[NodeId; 2]> = OnceLock::new();
+    KEYS.get_or_init(|| [*MockSigner::from_seed([11; 32]).public_key(), *MockSigner::from_seed([12; 32]).public_key()])[which]
 }
 
 struct Tokens {
@@ -92,8 +94,8 @@ struct Sys {
 
 impl Sys {
     fn new(space: Space) -> Self {
-        let bypassed = key(11);
-        Sys { space, cfg: None, real: RateLimiter::new([bypassed]), bypassed, other: key(12), now_ms: T0_MS, hist: BTreeMap::new() }
+        let bypassed = key(0);
+        Sys { space, cfg: None, real: RateLimiter::new([bypassed]), bypassed, other: key(1), now_ms: T0_MS, hist: BTreeMap::new() }
     }
 }
 
@@ -159,8 +161,27 @@ impl System for Sys {
                     1 => Some(&self.bypassed),
                     _ => Some(&self.other),
                 };
-                // The real code. A panic here is caught by the engine (see `on_panic`).
-                let limited = self.real.limit(host(h), nid_ref, &tokens, now);
+                // The real code. "`limit` returns": a panic is a violation; it is caught here (not by
+                // the engine) so that the fingerprint can say how the clock relates to the host's
+                // earlier requests. The limiter is not used after a panic.
+                let real = &mut self.real;
+                let limited = match mcx::panics::catch(move || real.limit(host(h), nid_ref, &tokens, now)) {
+                    Ok(l) => l,
+                    Err(c) => {
+                        let prev_max = self.hist.get(&h).and_then(|l| l.iter().map(|(t, _)| *t).max());
+                        let shape = match prev_max {
+                            Some(p) if self.now_ms < p => "clock-earlier-than-a-previous-request-of-the-host",
+                            Some(_) => "clock-not-earlier-than-previous-requests-of-the-host",
+                            None => "first-request-of-the-host",
+                        };
+                        let v = Violation::new(
+                            format!("C17/limit-panics/{shape}@{}", c.site()),
+                            format!("RateLimiter::limit panicked ({shape}, step {dt_ms} ms): {} ({}:{})", c.message, c.file, c.line),
+                            json!({"panic": c.message, "file": c.file, "line": c.line}),
+                        );
+                        return StepOut { violations: vec![v], outcome: format!("PANIC:{shape}"), dead: true };
+                    }
+                };
 
                 let mut vs = vec![];
                 let exempt = non_routable(h) || nid == 1;
@@ -209,38 +230,29 @@ impl System for Sys {
     fn canon(&self) -> Vec<u8> {
         // Everything relative to the current clock (the limiter only ever sees time through
         // differences), plus the sub-second phase of the clock, plus the model's timelines.
-        let mut buckets: Vec<Value> = vec![];
-        let mut hosts: Vec<(&HostName, &radicle_node::service::limiter::TokenBucket)> = self.real.buckets.iter().collect();
-        hosts.sort_by_key(|(h, _)| h.to_string());
+        use std::fmt::Write as _;
+        let mut out = format!("{:?}|{}|", self.cfg, self.now_ms.rem_euclid(1000));
+        let mut hosts: Vec<(String, &radicle_node::service::limiter::TokenBucket)> = self.real.buckets.iter().map(|(h, b)| (h.to_string(), b)).collect();
+        hosts.sort_by(|a, b| a.0.cmp(&b.0));
         for (h, b) in hosts {
-            let mut v = serde_json::to_value(b).expect("TokenBucket serialises");
-            if let Some(at) = v.get("refilledAt").and_then(Value::as_i64) {
-                v["refilledAt"] = json!(self.now_ms - at);
-            } else {
+            let v = serde_json::to_value(b).expect("TokenBucket serialises");
+            match v.get("refilledAt").and_then(Value::as_i64) {
+                Some(at) => {
+                    let _ = write!(out, "{h}:{}:{}:{}:{};", v["rate"], v["capacity"], v["tokens"], self.now_ms - at);
+                }
                 // Unknown encoding of the timestamp: keep it verbatim and pin the absolute clock.
-                v["abs_now"] = json!(self.now_ms);
+                None => {
+                    let _ = write!(out, "{h}:{v}:abs{};", self.now_ms);
+                }
             }
-            buckets.push(json!([h.to_string(), v]));
         }
-        let hist: Vec<Value> = self
-            .hist
-            .iter()
-            .map(|(h, l)| json!([h, l.iter().map(|(t, a)| json!([t - self.now_ms, a])).collect::<Vec<_>>()]))
-            .collect();
-        json!({"cfg": self.cfg, "phase": self.now_ms.rem_euclid(1000), "buckets": buckets, "hist": hist}).to_string().into_bytes()
-    }
-
-    fn on_panic(id: &str, c: &Caught, ev: &Ev) -> Option<Violation> {
-        let step = match ev {
-            Ev::Req { dt_ms, .. } if *dt_ms < 0 => "backward-clock-step",
-            Ev::Req { .. } => "forward-clock-step",
-            Ev::Config { .. } => "config",
-        };
-        Some(Violation::new(
-            format!("{id}/limit-panics/{step}@{}", c.site()),
-            format!("RateLimiter::limit panicked on a {step}: {} ({}:{})", c.message, c.file, c.line),
-            Value::Null,
-        ))
+        for (h, l) in &self.hist {
+            let _ = write!(out, "|{h}");
+            for (t, a) in l {
+                let _ = write!(out, ",{}{}", t - self.now_ms, if *a { 'A' } else { 'L' });
+            }
+        }
+        out.into_bytes()
     }
 }
 
